@@ -64,6 +64,30 @@ func vDelMember(m vspec.Val, k string) vspec.Val {
 	return vspec.Val{Kind: "M", M: nm}
 }
 
+func vHasSub(s, sub string) bool {
+	for i := 0; i+len(sub) <= len(s); i++ {
+		if s[i:i+len(sub)] == sub {
+			return true
+		}
+	}
+	return false
+}
+
+// vDeepSet / vDeepDel: set or delete the member at path inside nested maps (the intermediate maps exist).
+func vDeepSet(m vspec.Val, path []string, v vspec.Val) vspec.Val {
+	if len(path) == 1 {
+		return vSetMember(m, path[0], v)
+	}
+	return vSetMember(m, path[0], vDeepSet(m.M[path[0]], path[1:], v))
+}
+
+func vDeepDel(m vspec.Val, path []string) vspec.Val {
+	if len(path) == 1 {
+		return vDelMember(m, path[0])
+	}
+	return vSetMember(m, path[0], vDeepDel(m.M[path[0]], path[1:]))
+}
+
 func vListSet(l vspec.Val, i int, v vspec.Val) vspec.Val {
 	nl := append([]vspec.Val{}, l.L...)
 	if i < len(nl) {
@@ -282,6 +306,27 @@ func vTemplates() []vUpdTemplate {
 		{"SET l[0]=:v REMOVE m.k,b", []string{":v"}, func(p, b vVals) vVals {
 			return vWithout(vWith(vWith(p, "l", vListSet(p["l"], 0, b[":v"])), "m", vDelMember(p["m"], "k")), "b")
 		}},
+		// document paths of three and four segments: the addressed member changes, its siblings at every level stay
+		{"SET d.e.f.g = :v", []string{":v"}, func(p, b vVals) vVals { return vWith(p, "d", vDeepSet(p["d"], []string{"e", "f", "g"}, b[":v"])) }},
+		{"REMOVE d.e.f.g", nil, func(p, b vVals) vVals { return vWith(p, "d", vDeepDel(p["d"], []string{"e", "f", "g"})) }},
+		{"SET d.e.f2 = :v", []string{":v"}, func(p, b vVals) vVals { return vWith(p, "d", vDeepSet(p["d"], []string{"e", "f2"}, b[":v"])) }},
+		{"SET gl[1][0].v = :v", []string{":v"}, func(p, b vVals) vVals {
+			rows := append([]vspec.Val{}, p["gl"].L...)
+			cells := append([]vspec.Val{}, rows[1].L...)
+			cells[0] = vSetMember(cells[0], "v", b[":v"])
+			rows[1] = vspec.Val{Kind: "L", L: cells}
+			return vWith(p, "gl", vspec.Val{Kind: "L", L: rows})
+		}},
+		{"REMOVE gl[0][1].v", nil, func(p, b vVals) vVals {
+			rows := append([]vspec.Val{}, p["gl"].L...)
+			cells := append([]vspec.Val{}, rows[0].L...)
+			cells[1] = vDelMember(cells[1], "v")
+			rows[0] = vspec.Val{Kind: "L", L: cells}
+			return vWith(p, "gl", vspec.Val{Kind: "L", L: rows})
+		}},
+		// an assignment replaces the value whatever its type was - also when the old and the new value print alike
+		{"SET a = :n", []string{":n"}, func(p, b vVals) vVals { return vWith(p, "a", b[":n"]) }},
+		{"SET a = :t", []string{":t"}, func(p, b vVals) vVals { return vWith(p, "a", b[":t"]) }},
 		// a list as the assigned value is one element; list_append builds a new list and leaves its operands alone
 		{"SET l[5] = :l", []string{":l"}, func(p, b vVals) vVals { return vWith(p, "l", vListSet(p["l"], 5, b[":l"])) }},
 		{"SET l[0] = :l", []string{":l"}, func(p, b vVals) vVals { return vWith(p, "l", vListSet(p["l"], 0, b[":l"])) }},
@@ -371,6 +416,14 @@ func VerifC07Update() {
 		pre["bs"] = vspec.Val{Kind: "BS", BS: [][]byte{nd.Bytes("bs0", 1), nd.Bytes("bs1", 1)}}
 		nd.Assume(pre["bs"].BS[0][0] != pre["bs"].BS[1][0])
 	}
+	if vHasSub(t.text, " d.") || vHasSub(t.text, " gl[") {
+		cell := func(n string) vspec.Val {
+			return vspec.Val{Kind: "M", M: map[string]vspec.Val{"v": vS1(n), "w": vS1(n + "w")}}
+		}
+		pre["d"] = vspec.Val{Kind: "M", M: map[string]vspec.Val{"x": vS1("dx"), "e": {Kind: "M", M: map[string]vspec.Val{"y": vS1("dy"),
+			"f": {Kind: "M", M: map[string]vspec.Val{"g": vS1("dg"), "z": vS1("dz")}}}}}}
+		pre["gl"] = vspec.Val{Kind: "L", L: []vspec.Val{{Kind: "L", L: []vspec.Val{cell("c00"), cell("c01")}}, {Kind: "L", L: []vspec.Val{cell("c10"), cell("c11")}}}}
+	}
 	if nd.Choice("has-a", 2) == 1 {
 		pre["a"] = vS1("a")
 	}
@@ -402,6 +455,8 @@ func VerifC07Update() {
 			b[name] = vS1("v")
 		case ":w":
 			b[name] = vS1("w")
+		case ":t":
+			b[name] = vspec.Val{Kind: "BOOL", Bool: true}
 		case ":n":
 			b[name] = vN(5)
 		case ":l":
@@ -420,7 +475,7 @@ func VerifC07Update() {
 			b[name] = vspec.Val{Kind: "BS", BS: bs}
 		}
 	}
-	names := []string{"a", "b", "n", "o", "m", "l", "s", "u", "ns", "bs"}
+	names := []string{"a", "b", "n", "o", "m", "l", "s", "u", "ns", "bs", "d", "gl"}
 	item := vspec.ToItems(pre, names)
 	li := &Language{}
 	aliases := map[string]string{}
